@@ -666,7 +666,7 @@ func ruleHistoryReset(c *Ctx) {
 func init() {
 	register("C16", "Followers converge to the leader's region view through region sync", func(c *Ctx) {
 		c.Group("C16/slice-congruence", "at every SyncRegionResponse literal carrying regions, Regions / RegionStats / RegionLeaders are length-congruent on every path and loop iteration", func() { ruleSyncArrays(c) })
-		c.Group("C16/sender-pairing", "meta, statistics and leader of one entry come from one region and one index; start indexes; full sync skipped only when exactly in sync", func() { ruleSenderPairing(c); ruleStreamsRegistered(c) })
+		c.Group("C16/sender-pairing", "meta, statistics and leader of one entry come from one region and one index; start indexes; full sync skipped only when exactly in sync", func() { ruleSenderPairing(c); ruleStreamsRegistered(c); ruleBroadcastStartIndex(c) })
 		c.Group("C16/leader-placeholder", "a leaderless region is sent with an empty peer in its slot", func() { ruleLeaderPlaceholder(c) })
 		c.Group("C16/history", "change-log buffer: fields under its lock; index++ and flush accounting on every record, persisted every defaultFlushCount=100; RecordsFrom answers only inside the window and returns a copy", func() { ruleHistoryBuffer(c); ruleHistoryReset(c); ruleRingModulus(c) })
 		c.Group("C16/follower-apply", "the follower records a region only after put+save, indexes leaders/stats only under length guards, re-bases on index mismatch", func() { ruleFollowerApply(c); rulePerRegionLeader(c); ruleSyncMessageLimit(c); ruleFollowerFieldMap(c) })
@@ -1015,5 +1015,72 @@ func ruleStreamsRegistered(c *Ctx) {
 	}
 	if n == 0 {
 		c.Undec(rule, "loop over the streams in "+fnName(bc), "found", P.pos(bc.Pos()), "")
+	}
+}
+
+// ruleBroadcastStartIndex: the start index announced with a broadcast batch is
+// the change log's next index *before* the batch's regions were recorded: it is
+// read before the first Record of the batch. Read afterwards it is one too
+// high, the follower's index runs ahead, and an incremental sync after a
+// reconnect skips the first record the follower missed.
+func ruleBroadcastStartIndex(c *Ctx) {
+	P := c.P
+	const rs = "server/region_syncer"
+	rule := c.Prop + "/sender-pairing"
+	fn := P.Method(rs, "RegionSyncer", "RunServer")
+	c.saw(fnName(fn))
+	next := F(P.Method(rs, "historyBuffer", "GetNextIndex"))
+	record := F(P.Method(rs, "historyBuffer", "Record"))
+	startF := P.Field("github.com/pingcap/kvproto/pkg/pdpb", "SyncRegionResponse", "StartIndex")
+	regionsF := P.Field("github.com/pingcap/kvproto/pkg/pdpb", "SyncRegionResponse", "Regions")
+	n := 0
+	for _, st := range storesToField(fn, startF) {
+		// the batch response (it also carries regions), not the keep-alive
+		isBatch := false
+		if fa, ok := st.Addr.(*ssa.FieldAddr); ok {
+			for _, r := range *fa.X.Referrers() {
+				if fa2, ok := r.(*ssa.FieldAddr); ok && fieldOfAddr(fa2) == regionsF {
+					isBatch = true
+				}
+			}
+		}
+		if !isBatch {
+			continue
+		}
+		n++
+		var reads []ssa.Instruction
+		derivesFrom(st.Val, func(v ssa.Value) bool {
+			if cl, _ := callOf(v); cl != nil && next.Match(cl.Common()) {
+				reads = append(reads, cl)
+			}
+			return false
+		}, 4)
+		ok, why := len(reads) > 0, "the start index is not the change log's next index"
+		for _, rd := range reads {
+			for _, rc := range callsIn(fn, false, record) {
+				rci := rc.(ssa.Instruction)
+				// the read comes first: it dominates the Record, or stands before it in the same block
+				if rd.Block() == rci.Block() {
+					ir, ic := -1, -1
+					for i, x := range rd.Block().Instrs {
+						if x == rd {
+							ir = i
+						}
+						if x == rci {
+							ic = i
+						}
+					}
+					if ir > ic {
+						ok, why = false, "GetNextIndex at "+P.instrPos(rd)+" is read after the Record at "+P.instrPos(rci)
+					}
+				} else if !rd.Block().Dominates(rci.Block()) {
+					ok, why = false, "GetNextIndex at "+P.instrPos(rd)+" does not precede the Record at "+P.instrPos(rci)
+				}
+			}
+		}
+		c.Check(ok, rule, fmt.Sprintf("StartIndex of broadcast batch #%d in %s", n, fnName(fn)), "the change log's next index read before the batch's first Record", P.instrPos(st), why)
+	}
+	if n == 0 {
+		c.Undec(rule, "StartIndex of the broadcast batch in "+fnName(fn), "found", P.pos(fn.Pos()), "")
 	}
 }
